@@ -1,7 +1,7 @@
 """C13 -- see DESIGN.md section 5.  Deductive targets are added below the bounded import."""
 PROP = "C13"
 LEVEL = 'other'
-EXPLANATION = ('Deductive: rendering an argument, an option or a command line of a help page never fails whatever description / default / flags (safety + LabeledParagraph text precondition), adds exactly one element, and a hidden command adds none; in the help page of a command a hidden sub-command contributes nothing and any other sub-command exactly its name line, two elements for a description, two for a help text, one line per own argument and per own option with one separator per group, and a single empty line only when it has none of these (CommandHelp._render_sub_command, with the block scope as an assumed context manager); the argument and option loops of the section of a sub-command add exactly one line per element handed in and one separator line, for every number of elements (loop invariants; the caller passes the values() view of the tables of the format, taken as the sequence of the values of the dict at the call), and the getters the hiding rule reads (Command.name, CommandConfig.is_hidden) return the stored fields.  Bounded: generated applications x widths x ANSI/plain: completeness, hiding, line widths, help routes.')
+EXPLANATION = ('Deductive: rendering an argument, an option or a command line of a help page never fails whatever description / default / flags (safety + LabeledParagraph text precondition), adds exactly one element, and a hidden command adds none; the ARGUMENTS / OPTIONS / GLOBAL OPTIONS sections of every page (AbstractHelp._render_arguments / _render_options / _render_global_options) add a heading, exactly one line per element handed in - none dropped, none repeated, for any number of elements (loop invariants) - and a separator; in the help page of a command a hidden sub-command contributes nothing and any other sub-command exactly its name line, two elements for a description, two for a help text, one line per own argument and per own option with one separator per group, and a single empty line only when it has none of these (CommandHelp._render_sub_command, with the block scope as an assumed context manager); the argument and option loops of the section of a sub-command add exactly one line per element handed in and one separator line, for every number of elements (loop invariants; the caller passes the values() view of the tables of the format, taken as the sequence of the values of the dict at the call), and the getters the hiding rule reads (Command.name, CommandConfig.is_hidden) return the stored fields.  Bounded: generated applications x widths x ANSI/plain: completeness, hiding, line widths, help routes.')
 LEVEL_NOTE = ('assumes: BlockLayout.add appends (ghost counter); json.dumps of a default is a string; ArgsFormat.get_options hands out options in the normal form of C07 (short preferred => short name; Option.__init__ is verified to establish it); layout, wrapping and page content are bounded only')
 from . import help_contracts as hc
 TARGETS = [hc.M_AH + ":AbstractHelp._render_argument", hc.M_AH + ":AbstractHelp._render_option",
